@@ -3,7 +3,7 @@ from .common import *
 from ..kernels import *
 
 LEVEL = 'other'
-CALC = 'interp1d::strategies::linear::Linear::calc_frac'
+CALC = 'Linear::calc_frac'
 
 
 def two_point(x1, y1, x2, y2, x):
@@ -11,8 +11,11 @@ def two_point(x1, y1, x2, y2, x):
 
 
 def calc_frac_identity(chk, lib, rule):
-    b = anchor(chk, lib, CALC, rule)
+    b = lib.body(CALC)
     if b is None:
+        # the two-point helper is not part of any public contract: when it is absent (renamed, inlined) the kernel-level identity
+        # below decides the same formula on the strategy body itself
+        chk.note('two_point_helper', 'not present under the name %s; formula decided on the kernel only' % CALC)
         return None
     A = Rat.atom
     x1, y1, x2, y2, x = A('x1'), A('y1'), A('x2'), A('y2'), A('x')
@@ -75,7 +78,7 @@ def run(chk):
     calc_frac_identity(chk, lib, 'R1.1')
     linear_wiring(chk, lib, 'R1.2', ext=True)   # the range guard itself is C05's subject: evaluate the kernel with the guard off
     # R1.3: index_point evaluated alone
-    b = anchor(chk, lib, 'interp1d::Interp1D::index_point', 'R1.3')
+    b = anchor(chk, lib, 'Interp1D::index_point', 'R1.3')
     if b is not None:
         m = KModel()
         try:
